@@ -138,6 +138,7 @@ func (v *FnVC) execAppend(in *ssa.Call, st *State) {
 	K3 := Var(fmt.Sprintf("ap?%d", freshCounter), SInt)
 	v.assume(v.curGuard, Implies(inPlace, Forall([]*Term{K3}, Implies(Or(Lt(K3, base), Ge(K3, Add(base, lt))), Eq(Select(resArr, K3), Select(dstArr, K3))),
 		[]*Term{Select(resArr, K3)})), "append-inplace-rest")
+	v.loopFrameCheck(hname, SRef(s.T), Or(Not(inPlace), Eq(lt, IntLit(0))), in.Pos())
 	newRef := st.alloc
 	newCap := v.fresh("appcap", SInt)
 	v.assume(v.curGuard, And(Ge(newCap, n), Le(Add(off, newCap), BigLit(maxLenBig))), "append-cap")
@@ -176,6 +177,7 @@ func (v *FnVC) execCopy(in *ssa.Call, st *State) {
 	J := Var(fmt.Sprintf("cp?%d", freshCounter), SInt)
 	v.assume(v.curGuard, Forall([]*Term{J}, Implies(And(Le(SOff(s.T), J), Lt(J, Add(SOff(s.T), n))),
 		Eq(Select(nArr, Add(Sub(J, SOff(s.T)), SOff(d.T))), Select(srcArr, J))), []*Term{Select(srcArr, J)}), "copy-src")
+	v.loopFrameCheck(hname, SRef(d.T), Eq(n, IntLit(0)), in.Pos())
 	if !v.modAll {
 		alts := []*Term{Eq(n, IntLit(0)), Ge(SRef(d.T), v.entry.alloc)}
 		for _, m := range v.mods {
@@ -230,6 +232,18 @@ func (v *FnVC) applyContract(in *ssa.Call, callee *ssa.Function, spec *FuncSpec,
 			nm = fmt.Sprintf("%s.requires:%s", cn, c.Name)
 		}
 		v.oblige("call-pre", nm, v.curGuard, v.evalClause(envPre, c), v.posOf(in.Pos()), c.Text)
+	}
+	// the callee may panic only when the caller is allowed to
+	if len(spec.Panics) > 0 {
+		var may []*Term
+		for _, c := range spec.Panics {
+			may = append(may, v.evalClause(envPre, c))
+		}
+		var allowed []*Term
+		for _, c := range v.spec.Panics {
+			allowed = append(allowed, v.evalClause(v.entryEnv, c))
+		}
+		v.oblige("panic", cn+".may-panic", v.curGuard, Implies(Or(may...), Or(allowed...)), v.posOf(in.Pos()), "the callee panics only under a condition under which this function is allowed to panic")
 	}
 	// termination of recursion
 	if callee == v.fn && v.spec.Decreases != nil {
@@ -323,6 +337,9 @@ func (v *FnVC) applyContract(in *ssa.Call, callee *ssa.Function, spec *FuncSpec,
 			}
 			v.assume(v.curGuard, Forall([]*Term{r}, Implies(And(conds...), Eq(Select(nh, r), Select(oldH, r))), []*Term{Select(nh, r)}), "call-frame")
 		}
+	}
+	if len(mods) > 0 || retRefs || spec.ModAll || spec.Opts["allocates"] == "true" {
+		v.assumeClosure(st, v.curGuard, nil)
 	}
 	// results
 	var results []Val
